@@ -554,8 +554,8 @@ def monoOk (ti : Terminfo) : Bool :=
   ti.colors == 0 && ti.setFg == [] && ti.setBg == [] && ti.setFgBg == [] && ti.resetFgBg == [] &&
   ti.setFgRGB == [] && ti.setBgRGB == [] && ti.setFgBgRGB == []
 
-/-- the terminal description itself -/
-def tiOk (ti : Terminfo) : Bool :=
+/-- the capability strings of the terminal description -/
+def tiCapsOk (ti : Terminfo) : Bool :=
   (cupPads.any fun p => ti.setCursor == cupStd ++ p) &&
   attrOffForms.contains (stripPadding ti.attrOff) && clearForms.contains (stripPadding ti.clear) &&
   -- cursor visibility: both strings in a standard form, or neither
@@ -566,9 +566,13 @@ def tiOk (ti : Terminfo) : Bool :=
   -- colours: one of the palette families with `op` = `CSI 39;49 m` (or one of the two colour-setting `op`s), or none at all
   (((palKind ti).isSome && opForms.contains ti.resetFgBg) || monoOk ti) &&
   optForm ti.setFgRGB setfRGB && optForm ti.setBgRGB setbRGB && optForm ti.setFgBgRGB setfbRGB &&
-  !(ti.autoMargin && ti.disableAutoMargin.isEmpty && !ti.insertChar.isEmpty) &&
   -- coherence of the direct-colour strings (all three or none; tcell sets them together, terminfo.go addTrueColor)
   (ti.setFgRGB.isEmpty == ti.setBgRGB.isEmpty) && (ti.setFgBgRGB.isEmpty || !ti.setFgRGB.isEmpty)
+
+/-- the terminal description itself: its strings, and the draw path does not use the bottom-right insert-character trick on it
+    (tscreen.go:815: automatic margins that cannot be switched off and an insert-character string) -/
+def tiOk (ti : Terminfo) : Bool :=
+  tiCapsOk ti && !(ti.autoMargin && ti.disableAutoMargin.isEmpty && !ti.insertChar.isEmpty)
 
 /-- the strings the screen constructor derives from it -/
 def dOk (d : Derived) : Bool :=
@@ -588,5 +592,11 @@ def dOk (d : Derived) : Bool :=
     xterm family and now holds every ECMA-48 entry of the database except the four that use the bottom-right insert-character
     trick, see `Props.C01B.db_layerB`.) -/
 def XtermLike (ti : Terminfo) : Bool := tiOk ti && dOk (derive ti)
+
+/-- the class without the corner-trick condition: all that the per-command effects `CapsFx` depend on -/
+def CapsOk (ti : Terminfo) : Bool := tiCapsOk ti && dOk (derive ti)
+
+theorem capsOk_of_xl {ti : Terminfo} (h : XtermLike ti = true) : CapsOk ti = true := by
+  simp only [XtermLike, tiOk, CapsOk, Bool.and_eq_true] at h ⊢; exact ⟨h.1.1, h.2⟩
 
 end Tcell.LayerB
